@@ -607,6 +607,9 @@ func (a *Array) PopIterate(fn ArrayPopIterationFunc) error {
 		}
 	}
 
+	// All elements are removed, so no mutable element is tracked by index anymore.
+	a.mutableElementIndex = nil
+
 	return nil
 }
 
